@@ -200,10 +200,19 @@ def _decide_one(src, new, feeds, rel, abs_):
                 # implies (shape inference refined '?' to the only value the spec allows) and ORT's input validation now refuses the
                 # feed: the input was outside the source model's domain, nothing to compare
                 return ("inconclusive_single_runtime", f"ort: {cmp_ort} | ref: {cmp_ref}")
-            if len(comps) == 1 and cmp_ref is not None and ("Unexpected shape" in cmp_ref or "Shape inconsistencies" in cmp_ref):
+            if len(comps) == 1 and cmp_ref is not None and ("Unexpected shape" in cmp_ref or "Shape inconsistencies" in cmp_ref or "negative dimensions are not allowed" in cmp_ref):
                 # only onnx.reference ran the source, and on the result it trips the internal consistency check of its own Conv kernel
-                # (op_conv.py: pads + strides + zero-size output): a limitation of that runtime, not evidence about the transformation
+                # (op_conv.py: pads + strides + zero-size output; a kernel larger than its input gives a negative extent that numpy refuses):
+                # a limitation of that runtime, not evidence about the transformation
                 return ("inconclusive_single_runtime", f"ort: {cmp_ort} | ref: {cmp_ref}")
+            if len(comps) == 1:
+                # only one runtime executed the SOURCE.  If the other one could load the source and REJECTED THIS INPUT at execution
+                # time, the input is at the edge of the source model's own domain (the runtimes disagree about the source): that the one
+                # lenient runtime refuses the result is then no evidence about the transformation.  (When the other runtime could not
+                # even load the source - an operator or type it does not implement - the single runtime is all there is and counts.)
+                contested = (cmp_ort is None and src.sess is not None) or (cmp_ref is None and src.ev is not None)
+                if contested:
+                    return ("inconclusive_single_runtime", f"source rejected by the other runtime on this input; ort: {cmp_ort} | ref: {cmp_ref}")
             return ("violation_not_executable", f"ort: {cmp_ort} | ref: {cmp_ref}")
         if len(comps) == 1:
             # only one runtime could execute the SOURCE model: a value difference on that runtime alone is not trusted
